@@ -1093,7 +1093,12 @@ func (e *Exec) unop(fr *frame, ins *ssa.UnOp) Value {
 		if o, isO := c.V.(*OpaqueV); isO && c.Fields == nil && c.Arr == nil {
 			return e.opaqueOrZero(ins.Type(), o.Note)
 		}
-		return e.load(c)
+		v := e.load(c)
+		if sv, isS := v.(SliceV); isS && isString(ins.Type()) {
+			// *(*string)(unsafe.Pointer(&b)): a string view of a byte slice
+			return e.mkStr(e.sliceBytes(sv))
+		}
+		return v
 	case token.NOT:
 		return e.ts.Not(x.(*Term))
 	case token.SUB:
@@ -1185,7 +1190,26 @@ func (e *Exec) indexAddr(fr *frame, ins *ssa.IndexAddr) Value {
 	if s.Len == 1 {
 		return e.at(s.Arr, s.Off)
 	}
+	if s.Len > 64 || storesThrough(ins) {
+		// a write through a symbolic index would turn the whole buffer into ite terms:
+		// case-split on the feasible positions instead
+		i := e.concInt(idx, "index")
+		return e.at(s.Arr, s.Off+int(i))
+	}
 	return &SymPtr{S: s, Idx: idx}
+}
+
+func storesThrough(ins *ssa.IndexAddr) bool {
+	refs := ins.Referrers()
+	if refs == nil {
+		return false
+	}
+	for _, r := range *refs {
+		if st, ok := r.(*ssa.Store); ok && st.Addr == ins {
+			return true
+		}
+	}
+	return false
 }
 
 // toInt64Term widens an index value to 64 bits according to its type.
